@@ -31,7 +31,7 @@ from operon_ai.state.metabolism import ATP_Store
 ID = "C07"
 LEVEL = "fault_enumeration"
 ENGINE = "seq"
-RUNS = {"quick": 30_000, "thorough": 900_000}
+RUNS = {"quick": 60_000, "thorough": 3_000_000}
 LOGICS = ["AND", "OR", "MAJORITY", "UNANIMOUS", "EXECUTOR_PRIORITY", "ASSESSOR_PRIORITY"]
 BEHAVIOURS = ["EXECUTE", "PERMIT", "BLOCK", "FAILURE", "DEFER", "UNKNOWN", "raise:RuntimeError"]
 TABLE = len(LOGICS) * len(BEHAVIOURS) * len(BEHAVIOURS) * 2          # 588 = 294 cells x cache on/off
@@ -170,6 +170,21 @@ def gen(rng, tier, i):
 
 def simplify(plan):
     cfg = plan["config"]
+    used = sorted({op[1] for op in plan["ops"] if op[0] == "run"} | {op[2] for op in plan["ops"] if op[:2] == ["clock", "ttl"]})
+    used = [u for u in used if u < len(plan["prompts"])]
+    if len(used) < len(plan["prompts"]):      # drop prompts no operation refers to
+        remap = {u: j for j, u in enumerate(used)}
+        ops = []
+        for op in plan["ops"]:
+            op = list(op)
+            if op[0] == "run" and op[1] in remap:
+                op[1] = remap[op[1]]
+            elif op[:2] == ["clock", "ttl"] and op[2] in remap:
+                op[2] = remap[op[2]]
+            elif op[0] == "run" or op[:2] == ["clock", "ttl"]:
+                continue
+            ops.append(op)
+        yield {**plan, "prompts": [plan["prompts"][u] for u in used], "ops": ops}
     if cfg["breaker"] != "off":
         yield {**plan, "config": {**cfg, "breaker": "off"}}
     if cfg["ttl"] != 300.0:
@@ -386,7 +401,7 @@ def run(plan, k):
                         k.violation("token", "wrong_issuer", "fresh", f"{tok[1]!r} != {issuer!r}")
                 # ---- clause: cache (a reply that consulted agents is not a cache reply)
                 if flagged:
-                    k.violation("cache", "agents_consulted_for_cached_reply", logic)
+                    k.violation("cache", "agents_consulted_for_cached_reply", "flag")
                 o = orig.get(prompt)
                 if o and o.get("clean") and us(now) - us(o["clean"]["t"]) >= ttl_us and cfg["cache"]:
                     k.probe("ttl_expired_reconsult")
@@ -406,12 +421,12 @@ def run(plan, k):
             slot = orig.get(prompt, {})
             cands = [c for c in (slot.get("last"), slot.get("clean")) if c is not None]
             if not cfg["cache"]:
-                k.violation("cache", "reply_without_consulting_agents_while_cache_disabled", logic)
+                k.violation("cache", "reply_without_consulting_agents_while_cache_disabled", "disabled")
             if not cands:
                 if not blocked:
                     k.violation("table", "passed_without_keys", f"{logic}:nonexnone",
                                 f"prompt={prompt[:30]!r} never answered before, no agent consulted, action={res.action}")
-                k.violation("cache", "cached_reply_without_original", logic,
+                k.violation("cache", "cached_reply_without_original", "lookup",
                             f"prompt={prompt[:30]!r} flagged_cached={flagged} reply={snap}")
                 if tok is not None and tok[0] != want_hash:
                     k.violation("token", "token_unbound", "cached", f"{tok[0]} != sha256({prompt[:30]!r})[:16]={want_hash}")
@@ -437,7 +452,7 @@ def run(plan, k):
                     k.violation("token", "wrong_issuer", "cached", f"{tok[1]!r} != {issuer!r}")
             age = min(us(now) - us(c["t"]) for c in match)
             if age > ttl_us:
-                k.violation("cache", "stale_after_ttl", logic, f"age={age}us ttl={ttl_us}us")
+                k.violation("cache", "stale_after_ttl", "ttl", f"age={age}us ttl={ttl_us}us")
             elif age > 0 and ttl_us - age <= 1_000_000:
                 k.probe("ttl_just_below_hit")
 
